@@ -3,6 +3,6 @@ from .worldcommon import ASSUME, TRUSTED
 
 SPEC = dict(id="C08", kind="world", monitor="suggestions_ok",
     coq_targets=["theories/Props/C08.vo", "theories/Corr/WorldAll.vo"],
-    level_text='C08_append_only and C08_count proved over all runs from the inductive invariant; C08_atomic_sync proved for every snapshot and reply (a status write keeps names/count/settings or appends exactly requests-count names of the one reply); uniqueness of names relies on the fresh-names assumption and is monitored',
-    level_note='uniqueness of assignment names is an assumption on the algorithm service (monitored on the implementation)' + "; " + "; ".join(ASSUME),
+    level_text='C08_append_only and C08_count proved over all runs from the inductive invariant; C08_atomic_sync proved for every snapshot and reply (a status write keeps names/count/settings or appends exactly requests-count names of the one reply); uniqueness of names (C08_names_unique) is proved for every history whose algorithm replies are fresh (an assumption on the action parameters: distinct names not yet in the suggestion, for every reply that is asked for) and monitored on the implementation',
+    level_note='freshness of the names in the replies of the algorithm service is an assumption on that service (the fake service of the harness generates fresh names)' + "; " + "; ".join(ASSUME),
     assumptions=ASSUME, trusted_base=TRUSTED)
